@@ -171,9 +171,11 @@ def expect_class(uri, caller_uri=None):
     """independent resolution: 'outside' | 'inside' | 'plain'"""
     import posixpath
 
-    u = uri.replace("\\", "/")
     if caller_uri is not None and not uri.startswith("/"):
-        u = posixpath.join(posixpath.dirname(caller_uri), u)
+        # only a forward slash makes a URI absolute; one that begins with a backslash is relative to the caller
+        u = (posixpath.dirname(caller_uri).rstrip("/") + "/" + uri).replace("\\", "/")
+    else:
+        u = uri.replace("\\", "/")
     u = u.lstrip("/")
     n = posixpath.normpath(u) if u else "."
     if n == ".." or n.startswith("../"):
@@ -223,6 +225,10 @@ def direct(look, uri, res, cfgname):
             else:
                 if CANARY in out or CANARY in src:
                     res.violate("canary-in-output", "%s rendered %r" % (what, out), witness=what)
+    if t is not None and expect_class(uri) == "outside":
+        # independent normalisation says the URI climbs above the lookup root: that must be refused, even when the
+        # clamped path happens to name a file inside a root
+        res.violate("escape-not-rejected", "%s returned a template (%r) although the URI resolves above the root" % (what, t.filename), witness=what)
     if h is not None and h != (t is not None):
         res.violate("has-template-disagrees", "has_template(%r)=%r but get_template %s" % (uri, h, "returned" if t is not None else "raised"))
     return t is not None
@@ -255,6 +261,8 @@ def via_tag(look, uri, res, cfgname):
             audit_check(res, what)
             if out is not None:
                 hit = True
+                if expect_class(uri, curi) == "outside":
+                    res.violate("escape-not-rejected", "%s rendered %r although the URI resolves above the root" % (what, out[:60]), witness=what)
                 if CANARY in out:
                     res.violate("canary-in-output", "%s rendered %r" % (what, out), witness=what)
                 elif "IN" not in out:
